@@ -84,6 +84,14 @@ const OFFENDERS: &[(&str, &str)] = &[
     ("too few arguments", "fn nf_(a, ..r) {\nreturn a\n}\nq_ := 1 + \u{1}nf_()\n"),
     ("redeclaration", "z_ := 1\n\u{1}z_ := 2\n"),
     ("redeclaration by fn", "z_ := 1\nfn \u{1}z_() {\n}\n"),
+    ("missing property named by a pair pattern", "{\u{1}\"k\": p_} := {}\n"),
+    ("missing property named by a shorthand pattern", "{\u{1}p_} := {}\n"),
+    ("missing property named by the second entry of a pattern", "{\"a\": p_, \u{1}\"k\": [q_, r_]} := {\"a\": 1}\n"),
+    ("missing property named by a parameter pattern", "fn f_(a_, {\u{1}\"k\": p_}) {\n}\n\u{2}f_(1, {})\n"),
+    ("missing property named by an assignment pattern", "p_ := 0\n{\u{1}\"k\": p_} = {\"j\": 1}\n"),
+    ("parameter name repeated in a called function value", "g_ := fn (a_, \u{1}a_) {\n}\n\u{2}g_(1, 2)\n"),
+    ("parameter name repeated inside a pattern of a called function value", "g_ := fn (a_, [b_, \u{1}a_]) {\n}\n\u{2}g_(1, [2, 3])\n"),
+    ("name repeated in a list pattern", "[a_, \u{1}a_] := [1, 2]\n"),
     ("break outside a loop", "if true {\n\u{1}break\n}\n"),
     ("continue outside a loop", "\u{1}continue\n"),
     ("return outside a function", "{\n\u{1}return 1\n}\n"),
